@@ -11,9 +11,9 @@ import (
 
 func init() {
 	register(&propDef{
-		id: "C24",
+		id:      "C24",
 		explain: "Structural necessary conditions of 'range requests yield exactly the requested bytes or a proper refusal': (E10) on every acyclic path of ParseByteRange (decided in the zone abstract domain, with the post-condition 'ParseUint returns a non-negative value when its error is nil'), every success return satisfies 0 <= startPos <= endPos < contentLength; (R2) in the FS handler a ParseByteRange error leads, on every path, to the reader being closed and a 416 answer; success leads to UpdateByteRange and SetContentRange being called with the parsed positions and to status 206; a failed UpdateByteRange closes the reader; (R3) not-modified and HEAD branches give the reader back (decrement / close) before returning; (R-pool) a pooled file reader is re-armed before it goes back to its pool: every field that UpdateByteRange sets and Read/WriteTo consult is re-assigned by Close on every path. Not decided: the bytes served, compressed variants, date comparison to the second.",
-		run: runC24,
+		run:     runC24,
 	})
 }
 
